@@ -5,6 +5,7 @@ import (
 	"encoding/json"
 	"fmt"
 	"net"
+	"reflect"
 	"strconv"
 	"strings"
 	"time"
@@ -343,6 +344,10 @@ func worldNatHole(w *World) {
 	if nsessions >= 5 {
 		time.Sleep(100 * time.Second)
 		w.Check("C20.footprint")
+		// (white-box probe, like the goroutine count: the size of the controller's session table, read by reflection)
+		if n := natholeSessionCount(env.frps); n > 0 {
+			viol("footprint", "session-table-not-empty", "%d NAT-hole sessions are still held by the controller 100 s after the last request (every request timed out or completed long ago)", n)
+		}
 		if g := frpGoroutines(); g > g0+4 {
 			viol("footprint", "sessions-accumulate", "server goroutines %d after the first session, %d after %d sessions and a 100 s pause:\n%s", g0, g, nsessions, frpGoroutineSummary())
 		}
@@ -406,4 +411,15 @@ func worldNatHole(w *World) {
 	w.SetSample(map[string]any{"sessions": nsessions, "mux": tcpMux})
 	w.Nontrivial()
 	_ = strings.Contains
+}
+
+// natholeSessionCount reads len(server.Service.rc.NatHoleController.sessions) by reflection; -1 if the layout differs.
+func natholeSessionCount(f *Frps) (n int) {
+	defer func() {
+		if recover() != nil {
+			n = -1
+		}
+	}()
+	v := reflect.ValueOf(f.Svc).Elem().FieldByName("rc").Elem().FieldByName("NatHoleController").Elem().FieldByName("sessions")
+	return v.Len()
 }
